@@ -81,6 +81,10 @@ func getDescription(raw interface{}) string {
 		desc = getMapValueString(node, "Description.Value")
 	}
 	if desc != "" {
+		if !printableAsBlockString(desc) {
+			// a quoted string can carry any description
+			return quoteString(desc)
+		}
 		sep := ""
 		if strings.ContainsRune(desc, '\n') {
 			sep = "\n"
@@ -88,6 +92,41 @@ func getDescription(raw interface{}) string {
 		desc = join([]string{`"""`, desc, `"""`}, sep)
 	}
 	return desc
+}
+
+// printableAsBlockString reports whether s, written between triple
+// quotes, is read back unchanged: no closing delimiter or quote at the
+// end, no characters a block string cannot contain or would normalise,
+// no blank first/last line and no indentation common to all lines.
+func printableAsBlockString(s string) bool {
+	if strings.Contains(s, `"""`) || strings.HasSuffix(s, `"`) || strings.HasSuffix(s, `\`) {
+		return false
+	}
+	for _, r := range s {
+		if (r < 0x20 && r != '\t' && r != '\n') || r == 0xFEFF {
+			return false
+		}
+	}
+	lines := strings.Split(s, "\n")
+	isBlank := func(l string) bool { return strings.Trim(l, " \t") == "" }
+	if isBlank(lines[0]) || isBlank(lines[len(lines)-1]) {
+		return false
+	}
+	if lines[0][0] == ' ' || lines[0][0] == '\t' {
+		return false
+	}
+	if len(lines) > 1 {
+		flush := false
+		for _, l := range lines[1:] {
+			if !isBlank(l) && l[0] != ' ' && l[0] != '\t' {
+				flush = true
+			}
+		}
+		if !flush {
+			return false
+		}
+	}
+	return true
 }
 
 func toSliceString(slice interface{}) []string {
